@@ -22,12 +22,19 @@
    * "a bare user identifier, a query object carrying that identifier, and a query object carrying
      the identifier together with the user's training history all produce the same output"
                                                                       -> query_forms_agree
+   * "every trained standard top-N or rating-prediction pipeline": which node feeds which parameter of
+     which component in RecPipelineBuilder.build / topn_pipeline / predict_pipeline is the GENERATED
+     Gen/C03_wiring.v; interpreted node by node it computes exactly the pipelines the other theorems
+     speak about                                                      -> standard_wiring
+   * "trained": the data of the latest train() alone, whatever the same object was trained on and
+     asked before                                                     -> retrain_current_data
    Hypotheses: the item vocabulary has no repeated identifier (C01's bijection) and a supplied
    candidate list is duplicate-free (the quantifier of the property: "supplied lists of distinct
    items").  A configured length of 0 is outside the claim; the generated resolution treats it as
    "unlimited" (`config.n or -1`) and the theorems cover it as such. *)
 From Coq Require Import ZArith QArith List Bool Sorted.
-From LK Require Import Lib.QLib Lib.PyInt Lib.TopN Gen.C03_len Model.C03_pipeline Proofs.C03_checker Proofs.C03_main.
+From LK Require Import Lib.QLib Lib.PyInt Lib.TopN Gen.C03_len Model.C03_pipeline Model.C03_graph Gen.C03_wiring
+  Proofs.C03_checker Proofs.C03_main Proofs.C03_wiring.
 Import ListNotations.
 Open Scope Z_scope.
 
@@ -121,6 +128,34 @@ Theorem shared_scorer_output : forall (sc f : scorer) ds i supplied config_n run
 Proof. exact shared_scorer_output_l. Qed.
 Print Assumptions shared_scorer_output.
 
+(* The wiring that pipeline/common.py assembles (regenerated from the source: node, component, parameter <- node),
+   interpreted generically (Model/C03_graph.v: eval), is the composition the theorems above are about:
+   the "recommender" (= default) node of RecPipelineBuilder.build() for every combination of prediction flags,
+   its "rating-predictor" with a fallback model and without, and predict_pipeline's default node. *)
+Theorem standard_wiring : forall E : wenv,
+  let rec := rec_pipeline (e_sc E) (e_ds E) (e_in E) (e_items E) (e_cfg E) (e_n E) in
+  let pred := pred_pipeline (e_sc E) (e_fb E) (e_ds E) (e_in E) (e_items E) in
+  (forall pr hf, run_wiring E (rec_wiring pr hf) Nrecommender = V_Rec rec /\
+                 run_default E (rec_wiring pr hf) = V_Rec rec) /\
+  (forall f, e_fb E = Some f -> as_pred (run_wiring E (rec_wiring true true) Npredictor) = Some pred) /\
+  (e_fb E = None -> as_pred (run_wiring E (rec_wiring true false) Npredictor) = Some pred) /\
+  (forall hf, find_node (w_nodes (rec_wiring false hf)) Npredictor = None) /\
+  (forall l, e_items E = Some l ->
+     (forall f, e_fb E = Some f -> as_pred (run_default E (predict_wiring true)) = Some pred) /\
+     (e_fb E = None -> as_pred (run_default E (predict_wiring false)) = Some pred)).
+Proof. exact standard_wiring_l. Qed.
+Print Assumptions standard_wiring.
+
+(* One pipeline object, any earlier life `pre` (train() on other data sets, queries), then train(ds) and further
+   queries: every answer is the answer of a pipeline that has only ever seen `ds`. *)
+Theorem retrain_current_data : forall (sc : scorer) (fb : option scorer) pre ds qs i supplied config_n run_n,
+  forallb is_ask qs = true ->
+  after (pre ++ Train ds :: qs) = Some ds /\
+  rec_after sc (pre ++ Train ds :: qs) i supplied config_n run_n = Some (rec_pipeline sc ds i supplied config_n run_n) /\
+  pred_after sc fb (pre ++ Train ds :: qs) i supplied = Some (pred_pipeline sc fb ds i supplied).
+Proof. exact retrain_current_data_l. Qed.
+Print Assumptions retrain_current_data.
+
 (* non-vacuity: a vocabulary of five items, a user who has seen two of them, a scorer with a tie and
    a missing score, configured length 10 overridden by a run-time length of 2 *)
 Example c03_nonvacuous :
@@ -136,7 +171,17 @@ Example c03_nonvacuous :
   rec_ok_b [11; 13; 14] (score_items sc (lookup_history ds (QId 1)) [11; 13; 14]) 2
            [(11, Some (1 # 2)%Q)] = false /\                               (* too short *)
   rows (pred_pipeline sc (Some (fun _ _ => Some (7 # 2)%Q)) ds (QId 1) None)
-    = [(11, Some (1 # 2)%Q); (13, Some (7 # 2)%Q); (14, Some (1 # 2)%Q)].
+    = [(11, Some (1 # 2)%Q); (13, Some (7 # 2)%Q); (14, Some (1 # 2)%Q)] /\
+  (* supplied candidates with a seen item (10), an unknown one (99) and a gap of the primary (13): each gets its own score *)
+  rows (pred_pipeline (fun q i => if i =? 10 then Some (9 # 1)%Q else None) (Some (fun _ i => Some (i # 2)%Q)) ds (QId 1) (Some [10; 99; 13]))
+    = [(10, Some (9 # 1)%Q); (99, Some (99 # 2)%Q); (13, Some (13 # 2)%Q)] /\
+  (* the same object trained earlier on data in which user 1 had seen everything: the latest train() decides *)
+  (let old := {| ds_items := [10; 11; 12; 13; 14]; ds_rows := [(1, [(10, None); (11, None); (12, None); (13, None); (14, None)])] |} in
+   rec_after sc [Train old; Ask (QId 1) None; Train ds; Ask (QId 2) None] (QId 1) None (Some 10) (Some 2)
+     = Some (Ok ([(11, Some (1 # 2)%Q); (14, Some (1 # 2)%Q)], true))) /\
+  (* the generated wiring, run node by node *)
+  run_default {| e_sc := sc; e_fb := None; e_ds := ds; e_in := QId 1; e_items := None; e_cfg := Some 10; e_n := Some 2 |}
+              (rec_wiring true true) = V_Rec (Ok ([(11, Some (1 # 2)%Q); (14, Some (1 # 2)%Q)], true)).
 Proof.
   cbv zeta. split.
   - repeat constructor; simpl; intuition discriminate.
